@@ -186,7 +186,7 @@ theorem fx_wf_aux : (e : Expr) → ∀ q, fx q e = true → wf (posOf q) e = tru
     have h1 := fx_wf_aux x .plain h.2
     simp [posOf] at h1
     simp [wf, h1]
-    exact posOf_ne_plain h.1
+    exact posOf_ne_plain h.1.1
   | .list es, q, h => by simp [fx] at h; simpa [wf, posOf] using fxList_wf_aux es .elem h
   | .tuple es, q, h => by
     simp only [fx] at h
